@@ -145,11 +145,21 @@ Definition outcome_eqb (a b : outcome) : bool :=
   | _, _ => false
   end.
 
-Definition init_class (kd : kdesc) (v : pval) (o : outcome) : bool :=
-  match kd_init kd with None => true | Some g => outcome_eqb (classify g v) o end.
+(* the number of components a branch takes: 1 | len(var.values) *)
+Definition owidth (o : outcome) (n : nat) : option nat :=
+  match o with OScalar => Some 1 | OVector => Some n | _ => None end.
+
+(* convert_to_parameters and the count of __init__ only use the WIDTH of a variable (the slice [a, a + b) and
+   the new offset): a branch that takes len("_") = 1 components is the scalar branch *)
+Definition same_width (o' o : outcome) (n : nat) : bool :=
+  match owidth o' n, owidth o n with Some a, Some b => a =? b | _, _ => false end.
+
+Definition init_width (kd : kdesc) (v : pval) (o : outcome) : bool :=
+  match kd_init kd with None => true | Some g => same_width (classify g v) o (snd v) end.
 
 (* a container the ParameterValues accepts is either refused by _set_bound or walked by all four walks as the
-   declaration means (a scalar only when it holds exactly one placeholder) *)
+   declaration means (a scalar only when it holds exactly one placeholder): _set_bound and update_processor take
+   the branch the declaration means, convert_to_parameters and __init__ a branch of the same width *)
 Definition agree_at (kd : kdesc) (v0 : pval) : bool :=
   if pv_accepts v0 then
     let v := norm (kd_norm kd) v0 in
@@ -157,7 +167,8 @@ Definition agree_at (kd : kdesc) (v0 : pval) : bool :=
     | ORaise => true
     | OSkip => false
     | o => outcome_eqb o (spec_outcome v0) &&
-           outcome_eqb (classify (kd_cv kd) v) o && outcome_eqb (classify (kd_up kd) v) o && init_class kd v o &&
+           same_width (classify (kd_cv kd) v) o (snd v) && outcome_eqb (classify (kd_up kd) v) o &&
+           init_width kd v o &&
            match o with OScalar => snd v0 =? 1 | _ => true end
     end
   else true.
